@@ -57,6 +57,15 @@ CHECKS['C13'] = dict(
    technique='Coq proof (panic-aware model never panics and terminates within MAX_ITERATIONS for every matrix and arithmetic; shape/normalisation/Rayleigh-quotient facts on Ok; exit means small relative change) + bit-for-bit correspondence incl. runs to the iteration cap + exact residual/eigenvalue oracle',
    text='4 theorems: c13_total (all instances: no panic, at most MAX_ITERATIONS iterations, n x 1 vector or NoConvergence, non-square/empty rejected), c13_shape_norm (R: largest component 1, lambda = Rayleigh quotient), c13_exit_means_small_change, c13_accuracy_partial (n = 1 only; the spectral accuracy bounds are decided by the oracle on symmetric Q D Q^T with gap <= 1/2)',
    note=COMMON_NOTE + '; accuracy half (residual and eigenvalue bounds) is measured by the oracle, not proved', ref='DESIGN.md §5 C13')
+
+CHECKS['C08'] = dict(
+   technique='Coq proof (Gaussian elimination with scaled partial pivoting on functional matrices: any returned vector solves A x = b; every matrix with a non-trivial left null vector is refused for every right-hand side; shape errors, no panic; triangular substitutions) + bit-for-bit correspondence on all container types + exact-rational oracle',
+   text='6 theorems in exact arithmetic for every n, A, b, tol>0: c08_solves (via the effective-system invariant of the in-place elimination that leaves stale sub-diagonal entries), c08_lists (at the extracted list boundary), c08_singular_refused (no determinants: the flag is independent of b), c08_shape (non-square / length mismatch / empty are errors, never a panic), c08_substitution(_triangular); float instance agrees bit for bit with the Rust code on exhaustive 2x2, sampled 3x3, random/row-scaled/rank-deficient systems up to 10x10 across Vec<Vec<f64>>, &Vec<Vec<i32>>, &Arr2D<f64>, &Arr2D<i32>',
+   note=COMMON_NOTE + '; componentwise backward error and "well-conditioned systems are never refused" are measured by the oracle', ref='DESIGN.md §5 C08')
+CHECKS['C15'] = dict(
+   technique='Coq proof (normal equations of the closed-form line and of the polynomial fit via c08_solves, optimality identity SSE(c\')=SSE(c)+sum(p_c-p_c\')^2, statistics formulas, gradient-descent error recurrence) + bit-for-bit correspondence + exact oracle scaled by the moment-matrix condition',
+   text='10 theorems: c15_ls_normal, c15_poly_normal, c15_poly_outcomes, c15_optimal (no other coefficients give a smaller sum of squares), c15_order1_is_line, c15_order_monotone, c15_stats (r2, std_err, predict are the textbook functions of the returned coefficients for all three regressors), c15_gd_iterates/recurrence (e\' = (I - alpha H) e with the normal-equation solution as fixed point); pivot tolerance re-read from polynomial.rs into the model on every run',
+   note=COMMON_NOTE + '; the gradient-descent contraction bound rho^k is checked by the oracle only', ref='DESIGN.md §5 C15')
 NOT_APPLICABLE = {}
 ALL = ['C%02d' % i for i in range(1, 21)]
 PENDING_REASON = 'not claimed yet in this revision: model/proof under construction (see DESIGN.md §9); no check is registered so nothing is asserted'
